@@ -41,8 +41,9 @@ class C16(Prop):
     files = ['tephra-error/src/display.rs', 'tephra-error/src/highlight.rs', 'tephra-error/src/error/source.rs',
              'tephra-error/src/message.rs', 'tephra-span/src/span.rs']
     trusted_base = TB_SPAN[:1] + [
-        'hand-written Gallina model coq/theories/Render.v of the plain rendering in tephra-error (display.rs, highlight.rs, message.rs), on top of the span-layer model; tied to /repo by this correspondence run (byte-for-byte)',
-        'the coloured rendering and the owned copy are not modelled: the harness itself compares coloured-with-escapes-stripped and owned against the plain/borrowed rendering (colored crate really enabled: tephra-error built without its default feature)',
+        'hand-written Gallina models coq/theories/Render.v (plain) and RenderColor.v (coloured: styled cells) of the rendering in tephra-error (display.rs, highlight.rs, message.rs), on top of the span-layer model; both tied to /repo by this correspondence run (byte-for-byte; colored crate really enabled: tephra-error built without its default feature)',
+        'escape format of the colored crate (ESC[ 1; 9x m ... ESC[0m, padding inside) is written by the OCaml driver; cell characters come from the extracted denotation den',
+        'the owned copy is not modelled: the harness itself compares owned against borrowed; it also compares coloured-with-escapes-stripped against plain on the real strings',
         'extraction: ExtrOcamlBasic only (Coq string/ascii stay inductives); OCaml driver turns cells into bytes',
         'Rust harness harness/hrender and python orchestration; the python layout oracle (row parser) in lib/props/C16.py',
         'f32::log10 in SpanDisplay::new is modelled by an integer ceil-log10 (validated on every line number reached, incl. 9/10/11, 99/100/101, 999/1000/1001)',
@@ -50,7 +51,7 @@ class C16(Prop):
     rule = ('exhaustive short texts (<= tier bound lines) over {a, TAB, wide char, zero-width characters, line ending} with all canonical spans as display and '
             'highlight spans (empty, within a line, ending at a line end, spanning 2..n lines, starting at column 0 or mid-line), '
             '1-3 highlights per display, 1-2 displays, every message type, named/unnamed, code id on/off, LF/CR/CRLF, plus long texts '
-            'reaching line numbers 9/10/11, 99/100/101, 999/1000/1001; the plain rendering is compared byte for byte with the model and '
+            'reaching line numbers 9/10/11, 99/100/101, 999/1000/1001; the plain and the coloured rendering are compared byte for byte with the two models and the plain one is '
             'parsed back by a layout oracle (lines shown once/in order/verbatim/labelled, gutter separator column, mark columns and '
             'widths, riser continuity); coloured-stripped == plain and owned == borrowed are checked by the harness on the real '
             'strings; non-trivial = a display with a multi-line highlight or a line number >= 10; distinct by case')
